@@ -206,19 +206,14 @@ impl RemoveRec {
     }
 }
 
-#[kani::proof]
-#[kani::unwind(6)]
-fn c14_companion_rc() {
-    let n: usize = kani::any();
-    kani::assume(n >= 1 && n <= 3);
+fn check_companion(n: usize) {
+    // n is concrete: a companion shared by n watchpoints with symbolic, pairwise different numbers
     let ws: [u32; 3] = kani::any();
-    kani::assume(ws[0] != ws[1] && ws[0] != ws[2] && ws[1] != ws[2]); // watchpoint numbers are unique
+    kani::assume(ws[0] != ws[1] && ws[0] != ws[2] && ws[1] != ws[2]);
     let ti: usize = kani::any();
     kani::assume(ti < n);
     let target = ws[ti];
-    let mut v = Vec::with_capacity(3);
-    let mut k = 0;
-    while k < 3 { if k < n { v.push(ws[k]); } k += 1; }
+    let v: Vec<u32> = match n { 1 => vec![ws[0]], 2 => vec![ws[0], ws[1]], _ => vec![ws[0], ws[1], ws[2]] };
     let mut comp = CompanionRec { r#type: BrkptType::WatchpointCompanion(v) };
     let num: u32 = kani::any();
     let mut reg = RemoveRec { removed: None };
@@ -234,8 +229,8 @@ fn c14_companion_rc() {
                 assert!(left.len() == n - 1, "C14.companion_rc.E3 exactly the removed watchpoint is dropped from the companion");
                 let mut j = 0;
                 let mut idx = 0;
-                while j < 3 {
-                    if j < n && j != ti {
+                while j < n {
+                    if j != ti {
                         assert!(left[idx] == ws[j], "C14.companion_rc.E4 the other watchpoints stay registered, in order");
                         idx += 1;
                     }
@@ -246,4 +241,12 @@ fn c14_companion_rc() {
         }
     }
     core::mem::forget(comp);
+}
+
+#[kani::proof]
+#[kani::unwind(6)]
+fn c14_companion_rc() {
+    check_companion(1);
+    check_companion(2);
+    check_companion(3);
 }
